@@ -88,7 +88,14 @@ class VQueue:
         self.items.append(pickle.dumps(item) if self.pickled else item)
 
     def get(self, block=True, timeout=None):
-        self.sched.op(('get', self))
+        if timeout is not None or not block:
+            # a timed wait: it may expire whenever the rest of the system is only waiting for its environment
+            self.sched.op(('get-timed', self))
+            if not self.items:
+                self.sched.current.observe('get-timeout', self.name)
+                raise __import__('queue').Empty()
+        else:
+            self.sched.op(('get', self))
         x = self.items.popleft()
         v = pickle.loads(x) if self.pickled else x
         self.sched.current.observe('get', self.name, repr(v))
@@ -212,6 +219,11 @@ class Sched:
 
     _in_op = False
 
+    def env_wait(self):
+        """Scheduling point for a wait on the environment (the upstream iterator producing its next row): always
+        enabled, but while every runnable thread sits at such a point virtual time may advance (timed waits expire)."""
+        self.op(('env-pull', None))
+
     def enabled(self, vt):
         op = vt.pending
         if op is None:
@@ -219,6 +231,12 @@ class Sched:
         k = op[0]
         if k == 'get':
             return len(op[1].items) > 0
+        if k == 'get-timed':
+            if len(op[1].items) > 0:
+                return True
+            # expiry: only when nothing but waits on the environment could run instead
+            return not any(t is not vt and t.started and not t.finished and t.pending is not None and
+                           t.pending[0] not in ('env-pull', 'get-timed') and self.enabled(t) for t in self.threads)
         if k == 'join':
             return op[1].finished or not op[1].started
         return True
